@@ -66,6 +66,14 @@ def _mk_ops(ctx, rng, a_t, b_t, which):
         ops.append(dict(k="create", c=ca, u=ub))
     if "arith" in which:
         ops.append(dict(k="arith", f=rng.choice(["add", "sub"]), c1=ca, u1=ua, c2=cb, u2=ub, x=x, y=y))
+        if a_t != b_t and rng.random() < 0.5 and len(ctx.units[a_t]) > 1 and len(ctx.cats.get(a_t, [])) > 1:
+            # left operand: a hand-built derived quantity holding two categories of ONE quantity type in two
+            # different units (only obtainable through CreateDerived); the incompatible sum must fail and must
+            # not rewrite the units of that operand's interned quantity
+            c1b = rng.choice([c for c in ctx.cats[a_t] if c != ca])
+            u1b = rng.choice([u for u in ctx.units[a_t] if u != ua])
+            ops.append(dict(k="arithd", f=rng.choice(["add", "sub"]), c1=ca, u1=ua, c1b=c1b, u1b=u1b,
+                            c2=cb, u2=ub, x=x, y=y))
     if "cmp" in which:
         ops.append(dict(k="cmp", f=rng.choice(["lt", "le", "gt", "ge"]), c1=ca, u1=ua, c2=cb, u2=ub, x=x, y=y))
     if "check" in which:
@@ -101,6 +109,10 @@ def _expand(op):
     object-level routes equal the database conversion is C02's theorem scalar_getValue_eq_convert)"""
     if op["k"] == "getvalue":
         return [dict(k="create", c=op["c"], u=op["u"]), dict(k="convert", cq=op["c"], u=op["u"], v=op["v"], x=op["x"])]
+    if op["k"] == "arithd":
+        # the model's simple operands stand in for the derived left operand: dimensions differ, so the sum is
+        # rejected (derived operands themselves are engine Alg's, C03)
+        return [dict(k="arith", f=op["f"], c1=op["c1"], u1=op["u1"], c2=op["c2"], u2=op["u2"], x=op["x"], y=op["y"])]
     return [op]
 
 
@@ -236,6 +248,25 @@ def _run_op(db, op):
             else:
                 r = float(FractionScalar(op["c"], FractionValue(op["x"]), op["u"]).GetValue(op["v"]))
             return dict(ok=dict(x=float(r).hex()))
+        if k == "arithd":
+            from collections import OrderedDict
+            from barril.units._quantity import Quantity
+
+            q = Quantity.CreateDerived(OrderedDict([(op["c1"], [op["u1"], 1]), (op["c1b"], [op["u1b"], 1])]))
+            a = Scalar.CreateWithQuantity(q, op["x"])
+            b = Scalar(op["y"], op["u2"], op["c2"])
+            before = (a.GetValue(), a.GetUnit(), [(c, list(ue)) for c, ue in q.GetCategoryToUnitAndExps().items()],
+                      q.GetComposingUnits(), hash(q))
+            try:
+                r = a + b if op["f"] == "add" else a - b
+                out = dict(ok=dict(cat=r.GetCategory(), unit=r.GetUnit(), x=float(r.GetValue()).hex()))
+            except Exception as e:
+                out = dict(err=err_kind(e))
+            after = (a.GetValue(), a.GetUnit(), [(c, list(ue)) for c, ue in q.GetCategoryToUnitAndExps().items()],
+                     q.GetComposingUnits(), hash(q))
+            if after != before:
+                return dict(err="other", detail="the left operand changed: %r -> %r" % (before[2], after[2]))
+            return out
         a = Scalar(op["x"], op["u1"], op["c1"])
         b = Scalar(op["y"], op["u2"], op["c2"])
         if k == "arith":
@@ -272,7 +303,26 @@ def impl(c, ctx):
     return dict(outs=outs)
 
 
-def _agree_op(op, io, mo):
+def _offset_mag(db, op):
+    """magnitude of the offsets a conversion passes through, in the result's unit (units such as degC or psig:
+    the float computation goes through the base unit, so its rounding is relative to the offset, not to the
+    possibly tiny result; same rule as C01's driver)"""
+    try:
+        if op["k"] == "convert":
+            cq, v = op["cq"], op["v"]
+        elif op["k"] == "getvalue":
+            cq, v = op["c"], op["v"]
+        else:
+            return 0.0
+        cats = db.categories_to_quantity_types
+        qt = cats[cq].quantity_type if cq in cats else cq
+        base = db.quantity_types[qt][0].unit
+        return abs(float(db.Convert(qt, base, v, 0.0))) + abs(float(db.Convert(qt, op["u"], v, 0.0)))
+    except Exception:
+        return 0.0
+
+
+def _agree_op(op, io, mo, extra_mag=0.0):
     if ("err" in io) != ("err" in mo):
         return "one side fails: impl=%s model=%s" % (io, mo)
     if "err" in io:
@@ -291,7 +341,7 @@ def _agree_op(op, io, mo):
         if ("x" in a) != ("x" in b):
             return "shape"
         r = float.fromhex(a["x"])
-        if not close(r, qparse(b["x"]), qparse(b["M"])):
+        if not close(r, qparse(b["x"]), max(qparse(b["M"]), exact(extra_mag))):
             return "value %r not within K*eps*M of %s" % (r, float(qparse(b["x"])))
     return None
 
@@ -309,7 +359,7 @@ def agree(c, io, mo, ctx):
             if "err" in earlier:  # the object could not even be created: that is the outcome of the whole step
                 b = earlier
                 break
-        why = _agree_op(op, a, b)
+        why = _agree_op(op, a, b, _offset_mag(ctx.db, op) if "ok" in a and op["k"] in ("convert", "getvalue") else 0.0)
         if why:
             return "step %d %s: %s" % (i, op, why)
     return None
@@ -371,6 +421,11 @@ def _must_fail(db, op):
         if None in (t, tu, tv) or t == "Unknown" or tu != t:
             return None
         return "units" if tv != t else None
+    if k == "arithd":
+        t1, t2 = cat_type(op["c1"]), cat_type(op["c2"])
+        if None in (t1, t2) or "Unknown" in (t1, t2) or t1 == t2:
+            return None
+        return "units"
     if k in ("arith", "cmp"):
         t1, t2 = cat_type(op["c1"]), cat_type(op["c2"])
         tu1, tu2 = _qt(db, None, op["u1"]), _qt(db, None, op["u2"])
